@@ -172,6 +172,18 @@ CHECKS = {
              'increase on accepted changes, no change on rejections, and '
              'returned == stored generation.',
         ref='DESIGN.md section 5 C10'),
+    'C11': dict(
+        text='Two one-step obligations over an arbitrary valid symbolic '
+             'state: (R) every claimed read route (provider, inventories, '
+             'traits, aggregates, usages, allocations by consumer and by '
+             'provider, project/user/type totals) returns exactly the '
+             'abstraction of the tables — presence of each item and every '
+             'value proved equal by z3, at a symbolic microversion where '
+             'fields depend on it; (W) five write routes answer with the '
+             'status their documented meaning prescribes (accept <=> formula '
+             'written from the api-ref) and leave exactly the prescribed '
+             'state. Routes not listed in the evidence are not claimed.',
+        ref='DESIGN.md section 5 C11'),
     'C12': dict(
         text='One inductive step over the allocation-writing corpus: z3 '
              'proves "consumer row <=> at least one allocation" and the '
